@@ -158,7 +158,7 @@ CUR_NAMES = ["Foo", "Bar", "Smith", "Jones", "Thompson", "Cooke", "Holmes", "Cha
              "Olcott", "Gilmer", "Halper", "Nobelman", "Theatre Enterprises"]
 HOSTILE = {
     "nbsp": [" ", " ", "　", " ", "\u0085", " "],
-    "quotes": ["“", "”", "’", "—", "–", "é", "ü", "…"],
+    "quotes": ["“", "”", "’", "—", "–", "é", "ü", "…", "ﬁ", "½", "™", "№", "ǆ"],
     "signs": ["§", "¶", "§§", "§x", "x§"],
     "ctrl": ["\x00", "\x1f", "\x7f", "\r", "\x0b", "\x0c"],
     "digits": ["١٩٩٩", "٣", "１２", "²"],
@@ -327,6 +327,38 @@ def punct_page_member(rng, short=True):
     return pre + page + post
 
 
+_year_member = []
+
+
+def year_group_member(rng):
+    """A member of a pattern with a year inside the citation itself ('14 How. Pr. (1857) 10')."""
+    from vmon.rxgen import sample
+    if not _year_member:
+        for e in DB.cit_extractors:
+            if e.extra["short"] or not (e.regex.startswith(PRE) and e.regex.endswith(POST)):
+                continue
+            body = e.regex[len(PRE):-len(POST)]
+            try:
+                rx = re.compile(body, e.flags)
+            except Exception:
+                continue
+            if "year" in rx.groupindex:
+                _year_member.append((e, body, rx))
+        _year_member.append(None)
+    pool = [x for x in _year_member if x]
+    if not pool:
+        return member(rng, False)
+    e, body, rx = rng.choice(pool)
+    for _ in range(6):
+        try:
+            s = sample(body, rng, e.flags, maxrep=2, ascii_only=True)
+        except Exception:
+            break
+        if rx.fullmatch(s) and "\n" not in s:
+            return s
+    return member(rng, False)
+
+
 _hostile_member = {}
 # probe character -> the characters of the same acceptance class used when generating
 HOSTILE_GROUP_CHARS = {"²": ["²", "①", "¹", "⁵"],          # \w only: str.isdigit() is True, int() raises
@@ -435,7 +467,7 @@ def frag(rng):
         m = (punct_page_member if rng.random() < 0.6 else midpage_member)(rng, short=rng.random() < 0.5)
         return rng.choice(["", name(rng) + ", "]) + m + rng.choice([" because", " and again", ".", "; see", ", 7", " (holding x)", ". Id. at 3"])
     if r < 0.06:
-        m = member(rng) if rng.random() < 0.7 else hostile_member(rng, short=rng.random() < 0.3)
+        m = member(rng) if rng.random() < 0.6 else year_group_member(rng) if rng.random() < 0.25 else hostile_member(rng, short=rng.random() < 0.3)
         return rng.choice(["", name(rng) + " v. " + name(rng) + ", ", name(rng) + ", "]) + m + rng.choice(
             ["", " (1999)", ", 5", ". Id. at 3", " (1999). Id. at " + num(rng), ". Id., at 12-13", "; " + name(rng) + ", supra, at 5"])
     if r < 0.28:
@@ -447,7 +479,7 @@ def frag(rng):
     if r < 0.50:
         return f"{name(rng)}, {num(rng)} {rep(rng)} at {num(rng)}, {num(rng)} {rep(rng)} {num(rng)}"
     if r < 0.57:
-        return f"{ref_name(rng)}{rng.choice([', ', ', ', ' , ', ' '])}{rng.choice(['', num(rng) + ' '])}{foldvar(rng, 'supra')}{rng.choice([', at ' + num(rng), '', ',', ' at ' + num(rng)])}"
+        return f"{ref_name(rng)}{rng.choice([', ', ', ', ' , ', ' '])}{rng.choice(['', num(rng) + ' '])}{foldvar(rng, 'supra')}{rng.choice([', at ' + num(rng), '', ',', ' at ' + num(rng), ' note ' + num(rng) + ', at ' + num(rng), ' note ' + num(rng), ', n. ' + num(rng) + ', at ' + num(rng)])}"
     if r < 0.65:
         return foldvar(rng, rng.choice(["Id.", "Id. at " + num(rng), "Ibid.", "id., at " + num(rng) + "-" + num(rng),
                                         "Id. at " + num(rng) + " (noting x)", "Id., at *" + num(rng)]))
@@ -630,7 +662,7 @@ def markup_doc(rng):
             seen += [P, D]
         else:
             parts.append(mk_ref(rng, rng.choice(seen)))
-        parts.append(rng.choice([". ", "; ", ".</p>\n<p>", " &amp; then ", ".  \n ",
+        parts.append(rng.choice([". ", "; ", ".</p>\n<p>", " &amp; then ", ".  \n ", " &hellip; ", "&trade;. ", ". \ufb01rst, &frac12; of ",
                                  ". The " + _it(rng, "ex post facto") + " clause. ",
                                  ". <b>Held:</b> ", " &sect; 5. "]))
     return "<p>" + "".join(parts) + "</p>"
